@@ -26,7 +26,7 @@ Section Surface.
   Variable P : prog.
 
   Lemma main_unwind_step t fr st :
-    main_cls (cls_of fr) = true -> snd (step_frame P t fr (SThrow XCancelled) st) = DRet (SThrow XCancelled).
+    main_frame fr = true -> snd (step_frame P t fr (SThrow XCancelled) st) = DRet (SThrow XCancelled).
   Proof. intros Hm. destruct fr; try discriminate Hm; cbn [step_frame is_Exception]; repeat break_match; reflexivity. Qed.
 
   Lemma exec_main_cancelled fuel k st :
@@ -38,7 +38,7 @@ Section Surface.
                      (tasks_ok pend_TP)); [| |auto].
     - intros sg s [Hs [_ [_ ->]]]. apply ok_set_tstate; [exact Hs|]. intros x _ _ _. cbn. left. reflexivity.
     - intros fr rest sg s [Hs [Hn [Hm ->]]]. split; [apply ok_abort; [intros x k0; apply pend_abort|exact Hs]|].
-      assert (Hmf : main_cls (cls_of fr) = true).
+      assert (Hmf : main_frame fr = true).
       { unfold main_stack in Hm. cbn [forallb] in Hm. apply andb_true_iff in Hm. apply Hm. }
       pose proof (main_unwind_step main_tid fr s Hmf) as Hd.
       pose proof (step_frame_tasks_ok P pend_TP pend_wake pend_cancel_ready pend_cancel_wait pend_spawn main_tid fr (SThrow XCancelled) s Hn Hs) as Hs1.
